@@ -14,7 +14,9 @@ Streams
              patch (own unified-diff parser/applier on get_diff() text), names (files named by the
              diff = get_changed_files/get_renames), inspect (nothing on disk changes before
              apply), apply (disk afterwards = announced contents and names, nothing else),
-             bytes (text outside the rewritten nodes preserved, by absolute offsets),
+             bytes (text outside the rewritten nodes preserved, by absolute offsets; the text in front of
+             each rewritten node - its parso prefix: line break, comment / blank lines, indentation - must
+             survive inside the replacement, only whole new lines may be inserted into it),
              exceptions (only RefactoringError / ValueError)
 """
 import difflib
@@ -26,7 +28,7 @@ import traceback
 
 import common
 from common import short
-from gen import refactor_gen
+from gen import refactor_gen, refactor_shapes
 
 MODELS = ['Diff', 'RefactorFS', 'Tree']
 MANIFEST = dict(
@@ -42,7 +44,9 @@ MANIFEST = dict(
          'statement = F3) and none at all once the range check exists. Tie: translator constants + '
          'correspondence on real refactorings (rename, inline, extract_variable, extract_function) over '
          'generated projects with LF/CRLF/CR endings, with/without final newline, unicode identifiers, '
-         'module renames; direct oracle with an independent patch applier and directory snapshots.',
+         'module renames; direct oracle with an independent patch applier, directory snapshots and a byte-level '
+         'check that the text between and in front of the rewritten nodes (line breaks, comment and blank lines, '
+         'indentation, LF/CRLF/CR) is preserved with nothing but whole inserted lines.',
     note='Modelled not verified: difflib (parameter: opcode list, Valid decided per run), parso tree construction, '
          'pathlib ordering, os.rename/open succeeding, text<->bytes encoding (utf-8). The node maps themselves '
          '(which nodes a refactoring rewrites) are C05/C06 business.',
@@ -50,7 +54,7 @@ MANIFEST = dict(
     design='5.C07')
 LEAN_TARGETS = ['JediModel.Props.C07', 'JediModel.Drivers.C07']
 
-SCRATCH = '/tmp/scratch-c07c06'
+SCRATCH = os.environ.get('VERIF_SCRATCH', '/tmp/scratch-c07c06')
 ALLOWED_EXC = ('RefactoringError', 'ValueError')
 
 
@@ -222,6 +226,66 @@ def node_spans(root):
     return spans
 
 
+def first_leaf_of(n):
+    while hasattr(n, 'children'):
+        n = n.children[0]
+    return n
+
+
+def line_start_offset(text, line):
+    """offset of the first character of 1-based `line` (None when out of range)"""
+    off = 0
+    for i, l in enumerate(split_keepends(text), 1):
+        if i == line:
+            return off
+        off += len(l)
+    return None
+
+
+def prefix_groups(root, node_map, old):
+    """maximal rewritten nodes, merged when they touch: [(start incl. prefix, start of the first token,
+    end, replacement text, [(start, end) of the prefixes of the 2nd.. merged nodes])]"""
+    spans = node_spans(root)
+    mapped = sorted(((spans[id(nd)], nd, s) for nd, s in node_map.items()), key=lambda x: (x[0][0], -x[0][1]))
+    groups, pos = [], 0
+    for (s, e), nd, text in mapped:
+        if s < pos:
+            continue                    # inside a node that is replaced as a whole
+        vstart = s + len(first_leaf_of(nd).prefix)
+        if groups and groups[-1][2] == s:
+            g = groups[-1]
+            groups[-1] = (g[0], g[1], e, g[3] + text, g[4] + [(s, vstart)])
+        else:
+            groups.append((s, vstart, e, text, []))
+        pos = e
+    return groups
+
+
+def prefix_preserved(prefix, repl):
+    """Is the text in front of a rewritten node - `prefix`: line breaks, blank lines, comment lines,
+    indentation - still in front of what replaces it?  The replacement `repl` (it starts where the
+    prefix started) may insert whole new lines between the lines of the prefix, nothing else; when
+    the node is deleted together with the rest of its line the indentation of that line may go too.
+    -> None | description of what is lost"""
+    pl = split_keepends(prefix)         # l_1 .. l_m, the last one is the partial line (indentation)
+    rl = split_keepends(repl)
+    j = -1
+    for i, l in enumerate(pl[:-1]):
+        k = next((k for k in range(j + 1, len(rl)) if rl[k] == l), None)
+        if k is None:
+            return 'line %d of the text in front of the rewritten node, %r, is not in the new text' % (i + 1, l)
+        j = k
+    last = pl[-1]
+    rest = rl[j + 1:]
+    if ''.join(rest) == '':
+        return None                     # nothing follows: the node and its line are deleted
+    if len(pl) == 1:
+        ok = rest[0].startswith(last)
+    else:
+        ok = any(r.startswith(last) for r in rest)
+    return None if ok else 'the indentation %r in front of the rewritten node is not in the new text' % last
+
+
 # ------------------------------------------------------------------ file system
 
 def snapshot(root):
@@ -324,7 +388,14 @@ def gen_request(rng, src, main_rel):
     kind = 'extract_variable' if r < 0.78 else 'extract_function'
     if not exprs:
         return {'kind': kind, 'line': 1, 'column': 0, 'new_name': 'ex', 'until_line': None, 'until_column': None}
-    (l1, c1), (l2, c2), _ = rng.choice(exprs)
+    # expressions that are the first token of a continuation line carry a multi-line prefix
+    # (line break, comment lines): prefer them a third of the time
+    src_lines = src.splitlines()
+    cont = [e for e in exprs if e[0][0] <= len(src_lines)
+            and src_lines[e[0][0] - 1][:e[0][1]].strip() == '' and e[0][1] > 0
+            and e[2] not in ('expr_stmt', 'simple_stmt', 'return_stmt', 'if_stmt', 'for_stmt', 'funcdef')]
+    pool = cont if cont and rng.random() < 0.35 else exprs
+    (l1, c1), (l2, c2), _ = rng.choice(pool)
     req = {'kind': kind, 'line': l1, 'column': c1, 'new_name': rng.choice(['ex', 'extracted', 'ñew']),
            'until_line': l2, 'until_column': c2}
     k = rng.random()
@@ -498,6 +569,47 @@ def run_case(ctx, n, files, main_rel, req, do_apply, reqs, pending, verbose=Fals
             if ''.join(expect) != it['new']:
                 ctx.fail('oracle-bytes', 'text outside the rewritten nodes is not preserved byte for byte',
                          fcase, expected=''.join(expect), observed=it['new'], how=HOW)
+            # the text in front of every rewritten node (its parso prefix: line break, comment and blank
+            # lines, indentation) is text outside the node as well: it must survive in the replacement,
+            # with nothing but whole new lines inserted.  For extract_* the part of the prefix from the
+            # line of the selection start on is selected text, not judged.
+            sel_off = None
+            if req['kind'] in ('extract_variable', 'extract_function') and rel == case['file'] \
+                    and isinstance(req.get('line'), int):
+                sel_off = line_start_offset(it['old'], req['line'])
+            multi = cont = False
+            sel_end = None
+            if sel_off is not None and isinstance(req.get('until_line'), int):
+                sel_end = line_start_offset(it['old'], req['until_line'] + 1)
+            for gi, (gs, gv, ge, text, inner) in enumerate(
+                    prefix_groups(cf._module_node, cf._node_to_str_map, it['old'])):
+                # comments in front of the 2nd.. node of a run of rewritten nodes (e.g. the comment after a
+                # statement that `inline` removes) are outside the nodes too; inside the selected lines of an
+                # extract request they are selected text
+                for (ps, pe) in inner:
+                    if sel_off is not None and ps >= sel_off and (sel_end is None or pe <= sel_end):
+                        continue
+                    for c in re.findall(r'#[^\r\n]*', it['old'][ps:pe]):
+                        if c not in it['new']:
+                            ctx.fail('oracle-bytes', 'a comment between rewritten nodes is lost',
+                                     dict(fcase, shape=refactor_shapes.c07_shape_of(it['old'], req), prefix=c),
+                                     expected={'comment': c}, observed={'new_code': it['new']}, how=HOW)
+                pfx = it['old'][gs:gv]
+                if sel_off is not None and gs <= sel_off < gv:
+                    pfx = it['old'][gs:sel_off]
+                multi = multi or ('\n' in pfx or '\r' in pfx)
+                # a rewritten node that is the first token of a continuation line (not the leaf the new
+                # line is inserted before)
+                cont = cont or (gi > 0 and ('\n' in pfx or '\r' in pfx))
+                lost = prefix_preserved(pfx, text)
+                if lost is not None:
+                    ctx.fail('oracle-bytes', 'text in front of a rewritten node is not preserved: ' + lost,
+                             dict(fcase, shape=refactor_shapes.c07_shape_of(it['old'], req), prefix=pfx), expected={'text_in_front_of_the_node': pfx}, observed={'replacement': text, 'new_code': it['new']},
+                             how=HOW)
+            ctx.count('oracle-prefix', key, nontrivial=multi,
+                      bucket='%s/%s/%s' % (req['kind'], 'continuation-line-node' if cont else
+                                           'multi-line-prefix' if multi else 'one-line-prefix',
+                                           eol_kind(it['old']).split('/')[0]))
             # patch
             old_l, new_l = norm_lines(it['old']), norm_lines(it['new'])
             ctx.count('oracle-patch', key, nontrivial=it['old'] != it['new'],
